@@ -322,6 +322,11 @@ public:
             return do_shutdown(client::error::malformed_packet);
         const auto& [session_present, reason_code, ca_props] = *rv;
 
+        // Receive Maximum = 0 is a Protocol Error [MQTT-3.2.2.3.3];
+        // accepting it would block every QoS > 0 PUBLISH forever
+        if (ca_props[prop::receive_maximum].value_or(1) == 0)
+            return do_shutdown(client::error::malformed_packet);
+
         _ctx.ca_props = ca_props;
         _ctx.state.session_present(session_present);
 
